@@ -263,7 +263,11 @@ def popFrame : Nat → Streams → Nat → Streams × Option OutFrame
         let s := s.modStream id fun st => { st with pendingSend := rest }
         -- `stream.store_mut().find_mut(&pp.promised_id()).unwrap()`: looked up by *id*
         match s.store.findKey? pid with
-        | none => ((s.panic "called `Option::unwrap()` on a `None` value (promised stream)"), none)
+        | none =>
+          -- the promised stream was released before its PUSH_PROMISE could be written: nothing to promise
+          let st := s.stream id
+          let s := if !st.pendingSend.isEmpty || st.state.isScheduledReset then (s.qPush .pendingSend id).1 else s
+          popFrame fuel (s.transitionAfter id isPendingReset) maxLen
         | some pushed =>
           let _ := pk
           let s := s.modStream pushed fun st => { st with isPendingPush := false }
